@@ -58,6 +58,7 @@ func main() {
 		if si == len(scenarios)+len(watcherScenarios) {
 			factoryShard(r)
 			sequenceShard(r)
+			reloadStopShard(r)
 			return
 		}
 		if si >= len(scenarios) {
